@@ -18,25 +18,25 @@ Import ListNotations.
    entry of a bulk read) returns the canonical value of its id as of some scheduler step k inside its
    own [invocation, response] interval: gk is the state right after step k. *)
 Theorem C05_read_has_lin_point :
-  forall (digest : vec -> dgst), (forall a b : vec, digest a = digest b -> a = b) ->
+  forall (digest : vec -> dgst) (hard : nat), (forall a b : vec, digest a = digest b -> a = b) ->
   forall sh0 threads sched g,
-    crun digest (ginit sh0 threads) sched = Some g ->
+    crun digest hard (ginit sh0 threads) sched = Some g ->
     forall t c cl r inv res id val,
       In (HRes t c cl r inv res) (g_hist g) -> In (id, val) (vec_components r) ->
       exists k gk, inv <= k <= res /\
-        crun digest (ginit sh0 threads) (firstn (S k) sched) = Some gk /\
+        crun digest hard (ginit sh0 threads) (firstn (S k) sched) = Some gk /\
         option_map c_vec (lookup id (s_cold (g_sh gk))) = val.
 Proof. exact read_has_lin_point. Qed.
 
 (* The metadata component has a linearisation point of its own (in general a DIFFERENT step). *)
 Theorem C05_meta_has_lin_point :
-  forall (digest : vec -> dgst), (forall a b : vec, digest a = digest b -> a = b) ->
+  forall (digest : vec -> dgst) (hard : nat), (forall a b : vec, digest a = digest b -> a = b) ->
   forall sh0 threads sched g,
-    crun digest (ginit sh0 threads) sched = Some g ->
+    crun digest hard (ginit sh0 threads) sched = Some g ->
     forall t c cl r inv res id m,
       In (HRes t c cl r inv res) (g_hist g) -> In (id, m) (meta_components r) ->
       exists k gk, inv <= k <= res /\
-        crun digest (ginit sh0 threads) (firstn (S k) sched) = Some gk /\
+        crun digest hard (ginit sh0 threads) (firstn (S k) sched) = Some gk /\
         option_map c_meta (lookup id (s_cold (g_sh gk))) = Some m.
 Proof. exact meta_has_lin_point. Qed.
 
@@ -47,15 +47,17 @@ Proof. exact meta_has_lin_point. Qed.
    inside that call's own interval: an observation carrying the returned vector of each id it
    answered for (and one carrying the returned metadata), resp. the call's own write — an insert
    that answers Err after its cold-tier write took effect is linearised as a write —, and
-   (5) contains no write that was not issued by an invoked insert/delete with those arguments.
+   (5) contains no write other than those issued by an invoked insert/delete with those arguments and the
+   REPAIR writes of an insert's emergency drain (drain_repair: the cold tier re-created from a drained
+   mirror entry — see C05_drain_resurrects_deleted_refuted).
    Since stamps lie inside the intervals and L is ordered by stamp, L respects real-time order
    (C05_real_time_order); dropping unused observations keeps it accepted (C05_linearisation_subsequence),
    which yields the textbook one-point-per-operation linearisation.  Per id only: a bulk read is not
    atomic across ids.  The boolean answered by delete is not part of the specification. *)
 Theorem C05_register_linearizable :
-  forall (digest : vec -> dgst), (forall a b : vec, digest a = digest b -> a = b) ->
+  forall (digest : vec -> dgst) (hard : nat), (forall a b : vec, digest a = digest b -> a = b) ->
   forall sh0 threads sched g,
-    crun digest (ginit sh0 threads) sched = Some g ->
+    crun digest hard (ginit sh0 threads) sched = Some g ->
     let L := chron (g_log g) in
     StronglySorted (fun a b => fst a <= fst b) L /\
     reg_accepts (reg_of (s_cold sh0)) (map snd L) /\
@@ -68,7 +70,8 @@ Theorem C05_register_linearizable :
           exists k x, In (k, LObs id x) L /\ inv <= k <= res /\ option_map c_meta x = Some m) /\
        call_linearised L cl inv res) /\
     (forall k id x, In (k, LW id x) L ->
-       exists t c cl inv, In (HInv t c cl inv) (g_hist g) /\ inv <= k /\ write_matches cl id x).
+       exists t c cl inv, In (HInv t c cl inv) (g_hist g) /\ inv <= k /\
+                          (write_matches cl id x \/ drain_repair cl id x)).
 Proof. exact register_linearizable. Qed.
 
 Theorem C05_real_time_order : forall (L : list lentry) e1 e2,
@@ -80,11 +83,12 @@ Theorem C05_linearisation_subsequence : forall (keep : lop -> bool) ops r,
   reg_accepts r ops -> reg_accepts r (filter (fun o => is_write o || keep o) ops).
 Proof. exact reg_accepts_drop_obs. Qed.
 
-(* Never a vector that was not written. *)
+(* Never a vector that was not written — for runs without a drain repair write (client_writes_only). *)
 Theorem C05_read_value_written :
-  forall (digest : vec -> dgst), (forall a b : vec, digest a = digest b -> a = b) ->
+  forall (digest : vec -> dgst) (hard : nat), (forall a b : vec, digest a = digest b -> a = b) ->
   forall sh0 threads sched g,
-    crun digest (ginit sh0 threads) sched = Some g ->
+    crun digest hard (ginit sh0 threads) sched = Some g ->
+    client_writes_only g ->
     forall t c cl r inv res id v,
       In (HRes t c cl r inv res) (g_hist g) -> In (id, Some v) (vec_components r) ->
       (exists rc, lookup id (s_cold sh0) = Some rc /\ c_vec rc = v) \/
@@ -93,11 +97,13 @@ Proof. exact read_value_written. Qed.
 
 (* Never older than a write that completed before the read began; never a deleted document after its
    delete completed: the read returns the value of that write W or of a write that took effect after
-   W and before the read responded. *)
+   W and before the read responded.  CAUTION: that later write may be a drain REPAIR write, not a client
+   write — see C05_read_after_completed_delete for the clause restricted to client writes and
+   C05_drain_resurrects_deleted_refuted for the refutation of the unrestricted clause. *)
 Theorem C05_read_sees_completed_write :
-  forall (digest : vec -> dgst), (forall a b : vec, digest a = digest b -> a = b) ->
+  forall (digest : vec -> dgst) (hard : nat), (forall a b : vec, digest a = digest b -> a = b) ->
   forall sh0 threads sched g,
-    crun digest (ginit sh0 threads) sched = Some g ->
+    crun digest hard (ginit sh0 threads) sched = Some g ->
     forall tw cw clw rw invw resw t c cl r inv res id val,
       In (HRes tw cw clw rw invw resw) (g_hist g) ->
       ((exists v m, clw = CInsert id v m) \/ clw = CDelete id) ->
@@ -129,15 +135,15 @@ Definition bulk_threads : list (list call) := [[CBulk [7%N]]; [CInsert 7 wB nB]]
 Definition bulk_sched : list sitem := [Run 0; Run 0] ++ repeat (Run 1) 9 ++ [Run 0].
 
 Theorem C05_pairing_refuted :
-  exists (digest : vec -> dgst), (forall a b : vec, digest a = digest b -> a = b) /\
+  exists (digest : vec -> dgst) (hard : nat), (forall a b : vec, digest a = digest b -> a = b) /\
   exists sh0 threads sched g t c r inv res id v m,
-    crun digest (ginit sh0 threads) sched = Some g /\
+    crun digest hard (ginit sh0 threads) sched = Some g /\
     In (HRes t c (CGetDoc id) r inv res) (g_hist g) /\ In (id, (v, m)) (pair_components r) /\
     mixed_pair (chron (g_log g)) (s_cold sh0) id v m.
 Proof.
-  exists dg_id. split; [intros a b H; exact H|].
+  exists dg_id, 5000. split; [intros a b H; exact H|].
   exists pair_sh0, pair_threads, pair_sched.
-  destruct (crun dg_id (ginit pair_sh0 pair_threads) pair_sched) as [g|] eqn:E; [|vm_compute in E; discriminate].
+  destruct (crun dg_id 5000 (ginit pair_sh0 pair_threads) pair_sched) as [g|] eqn:E; [|vm_compute in E; discriminate].
   exists g, 0, 0, (RDoc 7 (Some (wB, nA))), 0, 11, 7%N, wB, nA.
   vm_compute in E. inversion E; subst g; clear E.
   split; [reflexivity|]. split; [left; reflexivity|]. split; [left; reflexivity|]. split.
@@ -147,15 +153,15 @@ Proof.
 Qed.
 
 Theorem C05_pairing_refuted_bulk :
-  exists (digest : vec -> dgst), (forall a b : vec, digest a = digest b -> a = b) /\
+  exists (digest : vec -> dgst) (hard : nat), (forall a b : vec, digest a = digest b -> a = b) /\
   exists sh0 threads sched g t c ids r inv res id v m,
-    crun digest (ginit sh0 threads) sched = Some g /\
+    crun digest hard (ginit sh0 threads) sched = Some g /\
     In (HRes t c (CBulk ids) r inv res) (g_hist g) /\ In (id, (v, m)) (pair_components r) /\
     mixed_pair (chron (g_log g)) (s_cold sh0) id v m.
 Proof.
-  exists dg_id. split; [intros a b H; exact H|].
+  exists dg_id, 5000. split; [intros a b H; exact H|].
   exists pair_sh0, bulk_threads, bulk_sched.
-  destruct (crun dg_id (ginit pair_sh0 bulk_threads) bulk_sched) as [g|] eqn:E; [|vm_compute in E; discriminate].
+  destruct (crun dg_id 5000 (ginit pair_sh0 bulk_threads) bulk_sched) as [g|] eqn:E; [|vm_compute in E; discriminate].
   exists g, 0, 0, [7%N], (RBulk [(7%N, Some (wA, nB))]), 0, 11, 7%N, wA, nB.
   vm_compute in E. inversion E; subst g; clear E.
   split; [reflexivity|]. split; [left; reflexivity|]. split; [left; reflexivity|]. split.
@@ -169,9 +175,9 @@ Qed.
    between those two steps they belong to one canonical record.  (The refuted class is exactly "a write
    of the same id lands between the metadata fetch and the vector's linearisation point".) *)
 Theorem C05_pairing_without_interleaved_write :
-  forall (digest : vec -> dgst), (forall a b : vec, digest a = digest b -> a = b) ->
+  forall (digest : vec -> dgst) (hard : nat), (forall a b : vec, digest a = digest b -> a = b) ->
   forall sh0 threads sched g,
-    crun digest (ginit sh0 threads) sched = Some g ->
+    crun digest hard (ginit sh0 threads) sched = Some g ->
     forall t c cl r inv res id v m,
       In (HRes t c cl r inv res) (g_hist g) -> In (id, (v, m)) (pair_components r) ->
       exists kv km xv xm,
@@ -182,6 +188,51 @@ Theorem C05_pairing_without_interleaved_write :
          exists rc, xv = Some rc /\ xm = Some rc /\ c_vec rc = v /\ c_meta rc = m).
 Proof. exact pairing_without_interleaved_write. Qed.
 
+(* ---------- "never a deleted document after its delete completed" is REFUTED on the faithful model ---------- *)
+(* It holds in runs without a drain repair write ... *)
+Theorem C05_read_after_completed_delete :
+  forall (digest : vec -> dgst) (hard : nat), (forall a b : vec, digest a = digest b -> a = b) ->
+  forall sh0 threads sched g,
+    crun digest hard (ginit sh0 threads) sched = Some g ->
+    client_writes_only g ->
+    forall tw cw rw invw resw t c cl r inv res id v,
+      In (HRes tw cw (CDelete id) rw invw resw) (g_hist g) ->
+      In (HRes t c cl r inv res) (g_hist g) -> In (id, Some v) (vec_components r) ->
+      resw < inv ->
+      exists kW kw t' c' m inv',
+        invw <= kW <= resw /\ kW <= kw <= res /\
+        In (HInv t' c' (CInsert id v m) inv') (g_hist g) /\ inv' <= kw.
+Proof. exact read_after_completed_delete. Qed.
+
+(* ... and fails with one: hot_tier_hard_limit = 1, document 7 mirrored.  delete(7) performs its
+   cold-tier delete (step 0) and is preempted before hot_tier.delete; insert(9, ..) of another client finds
+   the hot tier at its hard limit, drains it (taking 7's mirror), finds no canonical record of 7 and
+   "repairs" it with cold_tier.insert; the delete finishes and answers found = true (step 19); a point
+   read of 7 invoked AFTERWARDS (step 20) returns the deleted vector, although no insert of id 7 was ever
+   invoked. *)
+Definition res_threads : list (list call) := [[CDelete 7]; [CInsert 9 wB nB]; [CQuery true 7]].
+Definition res_sched : list sitem := [Run 0] ++ repeat (Run 1) 16 ++ repeat (Run 0) 3 ++ repeat (Run 2) 4.
+Definition never_inserted (g : gstate) (id : N) : Prop :=
+  forall t c i v m inv, In (HInv t c (CInsert i v m) inv) (g_hist g) -> i <> id.
+
+Theorem C05_drain_resurrects_deleted_refuted :
+  exists (digest : vec -> dgst) (hard : nat), (forall a b : vec, digest a = digest b -> a = b) /\
+  exists sh0 threads sched g id v td cd invd resd tr cr ar invr resr,
+    crun digest hard (ginit sh0 threads) sched = Some g /\
+    In (HRes td cd (CDelete id) (RDel true) invd resd) (g_hist g) /\
+    In (HRes tr cr (CQuery ar id) (RVec id (Some v)) invr resr) (g_hist g) /\
+    resd < invr /\ never_inserted g id.
+Proof.
+  exists dg_id, 1. split; [intros a b H; exact H|].
+  exists pair_sh0, res_threads, res_sched.
+  destruct (crun dg_id 1 (ginit pair_sh0 res_threads) res_sched) as [g|] eqn:E; [|vm_compute in E; discriminate].
+  exists g, 7%N, wA, 0, 0, 0, 19, 2, 0, true, 20, 23.
+  vm_compute in E. inversion E; subst g; clear E.
+  split; [reflexivity|]. split; [cbn; tauto|]. split; [cbn; tauto|]. split; [repeat constructor|].
+  intros t c i v m inv H. cbn in H.
+  repeat (destruct H as [H|H]; [try discriminate; inversion H; subst; discriminate|]). destruct H.
+Qed.
+
 (* Observation (not part of the read clauses): an insert can answer Err AFTER its cold-tier write took
    effect — a delete of the same id lands between the insert's cold.insert and its token read
    ("insert succeeded but cold tier has no canonical token").  The theorems above linearise such an
@@ -189,7 +240,7 @@ Proof. exact pairing_without_interleaved_write. Qed.
 Definition err_threads : list (list call) := [[CInsert 7 wB nB]; [CDelete 7]].
 Definition err_sched : list sitem := repeat (Run 0) 7 ++ repeat (Run 1) 4 ++ [Run 0].
 Theorem C05_insert_err_after_effect_witness :
-  exists g, crun dg_id (ginit pair_sh0 err_threads) err_sched = Some g /\
+  exists g, crun dg_id 5000 (ginit pair_sh0 err_threads) err_sched = Some g /\
     In (HRes 0 0 (CInsert 7 wB nB) (RIns false) 0 11) (g_hist g) /\
     In (4, LW 7 (Some (mkC wB nB 2))) (g_log g) /\
     In (HRes 1 0 (CDelete 7) (RDel true) 7 10) (g_hist g).
@@ -213,7 +264,7 @@ Definition nv_sched : list sitem :=
 
 Definition is_res (e : hevent) : bool := match e with HRes _ _ _ _ _ _ => true | _ => false end.
 Example C05_nonvacuous :
-  exists g, crun dg_id (ginit nv_sh0 nv_threads) nv_sched = Some g /\
+  exists g, crun dg_id 5000 (ginit nv_sh0 nv_threads) nv_sched = Some g /\
             length (filter is_res (g_hist g)) = 7 /\
             In (HRes 0 0 (CQuery true 8) (RVec 8 (Some wB)) 0 1) (g_hist g).
 Proof. eexists. split; [vm_compute; reflexivity|]. vm_compute. tauto. Qed.
@@ -226,6 +277,8 @@ Print Assumptions C05_linearisation_subsequence.
 Print Assumptions C05_read_value_written.
 Print Assumptions C05_read_sees_completed_write.
 Print Assumptions C05_pairing_refuted.
+Print Assumptions C05_read_after_completed_delete.
+Print Assumptions C05_drain_resurrects_deleted_refuted.
 Print Assumptions C05_pairing_without_interleaved_write.
 Print Assumptions C05_pairing_refuted_bulk.
 Print Assumptions C05_insert_err_after_effect_witness.
